@@ -7,6 +7,9 @@ mod isolate;
 mod judge;
 mod ops;
 mod props;
+mod props2;
+mod props3;
+mod props4;
 mod recog;
 mod refscreen;
 mod report;
@@ -56,56 +59,108 @@ pub fn outln(s: &str) {
 }
 
 
+const A_UNI: &str = "unicode-width / unicode-normalization tables are trusted (shared with the subject)";
+const A_BOUND: &str = "bounded geometries / depths / alphabets as listed under coverage.bounds";
+const A_HASH: &str = "HashMap iteration order is not controlled (observations are canonicalised)";
+
+fn run_body(prop: &str, c: &Collector, g: &mut props::Guard) -> Option<(&'static str, Vec<&'static str>, bool)> {
+    Some(match prop {
+        "C01" => {
+            props4::c01(c, g);
+            ("E5: all words over the grammar alphabet / all byte strings over the UTF-8 class alphabet up to the bound (all chunkings), macro-words of complete control functions, every listener method with every parameter in the wide domain, resize to sizes up to 140x40, API sequences by BFS over the full alphabet, captured sessions on several geometries incl. the DECCOLM switch; oracle: returned normally (no panic in an overflow-checked build, no abnormal worker end, no watchdog expiry), display() returns `lines` rows, and after a flush the follow-up ESC c x is visible", vec![A_BOUND, "worker aborts / hangs are detected per partition by the parent process (wall-clock cap)"], true)
+        }
+        "C02" => {
+            props3::c02(c, g);
+            ("E1/E3: every enumerated char word, macro-word and byte string is fed once whole and once under every partition into chunks (all 2^(n-1) for n<=8, else all 2-way cuts + one-at-a-time, plus empty chunks); oracle: snapshot(single feed) == snapshot(chunked), implementation vs implementation; captured sessions at every (or every k-th, stated) 2-way cut. states = streams, transitions = chunked runs, distinct_nontrivial = distinct final states", vec![A_BOUND, A_HASH], true)
+        }
+        "C03" => {
+            props3::c03(c, g);
+            ("E1: all strings over the grammar-class alphabet up to the cube length, ground-pruned continuation with the reduced alphabet, digit-run / parameter-list / OSC families; each word + probe suffix is fed to a fresh real Parser with a recording listener and its events compared with the explicit-state reference recogniser; states = words, distinct_nontrivial = distinct event lists", vec![A_BOUND, "declared don't-cares D8, D10"], true)
+        }
+        "C04" => {
+            props::c04(c, g);
+            ("E2: every (reachable base state x draw text) transition of the real Screen, plus BFS over draw/motion/mode histories with full-key dedup; each transition refined against the reference model from alpha(pre). distinct_nontrivial = distinct post-state observable views", vec![A_UNI, A_BOUND, "declared don't-cares D6, D11"], true)
+        }
+        "C05" => {
+            props::c05(c, g);
+            ("E2: every (reachable base state x movement op x parameter in {absent,0,1..size+2,9999}) transition, API and parser path; closed-form expectation on the cursor, frame condition on every other component. distinct_nontrivial = distinct post-state observable views", vec![A_BOUND], true)
+        }
+        "C06" => {
+            props::c06(c, g);
+            ("E2: every (base state with distinct markers / sparse rows x every region x every cursor) x {IND,LF,VT,FF,NEL,RI,IL n,DL n,DECSTBM t;b, autowrap draw} transition plus BFS over scroll histories; refined against a row-vector rotation model", vec![A_BOUND], true)
+        }
+        "C07" => {
+            props::c07(c, g);
+            ("E2: every (base state x ED/EL selector in {absent,0..5,9999} / ECH count) transition, API and parser path; cells in range == blank+cursor rendition, all else identical", vec![A_BOUND], true)
+        }
+        "C08" => {
+            props2::c08(c, g);
+            ("E4: every SGR code 0..=9999 singly from every rendition base state, all pairs (and triples over a core) of documented codes, all 38/48 forms with each component in 0..=300 and truncated tails, the same through CSI..m; oracle: independent left-to-right fold with its own palette; a character drawn afterwards must carry the rendition", vec![A_BOUND], true)
+        }
+        "C09" => {
+            props2::c09(c, g);
+            ("E2: well-formedness invariant evaluated on every post-state of the complete alphabet (incl. resize to every size and DECCOLM) from the product base states, and on every state of a mixed-alphabet BFS with full-key dedup", vec![A_BOUND, A_HASH], true)
+        }
+        "C10" => {
+            props2::c10(c, g);
+            ("E2: display() on every base state vs rendering recomputed from the grid; purity as a 2-run differential: o(s) vs o(display(s)) for every op of the full alphabet, and BFS where display is an ordinary op (all subsets of interposition points up to the depth)", vec![A_UNI, A_BOUND, "declared don't-care D5"], true)
+        }
+        "C11" => {
+            props3::c11(c, g);
+            ("E3: all byte strings over the UTF-8 class alphabet up to the length bound x all chunkings (+ empty chunks); after EVERY chunk the events seen so far must equal the std lossy decoding of the prefix minus its incomplete tail; scalar boundary set cut at every offset; 8-bit mode all bytes; mode switches between chunks", vec![A_BOUND, "std::String::from_utf8_lossy is the reference decoder", "declared don't-care D9"], true)
+        }
+        "C12" => {
+            props2::c12(c, g);
+            ("E4/E2: every mode number in the stated set x {private, ANSI} x {SM, RM} from representative base states, mode lists of length 2-3, the parser path, and BFS interleavings with DECSC/DECRC, resize, draw; refined against the reference model", vec![A_BOUND, "declared don't-care D3"], true)
+        }
+        "C13" => {
+            props::c13(c, g);
+            ("E2: every (base state x ICH/DCH x count) transition plus BFS over ICH/DCH/IRM-draw/EL/resize/display interleavings on one row with full-key dedup; list-splice reference", vec![A_BOUND], true)
+        }
+        "C14" => {
+            props2::c14(c, g);
+            ("E2: DECSC/DECRC from base states with stack depth 0..4 refined against the model; every other op must leave the stack unchanged; BFS over save/restore histories with intervening movement, SGR, charset, mode, margin and resize operations", vec![A_BOUND, "declared don't-care D2"], true)
+        }
+        "C15" => {
+            props2::c15(c, g);
+            ("E2: reset() and ESC c from every base state (incl. after DECCOLM/resize/title/tab edits): observable view == new screen of the current size (stack excluded), every row dirty; full-key equality with a new screen (=> equal futures by determinism), bounded continuations compared when keys differ", vec![A_BOUND], true)
+        }
+        "C16" => {
+            props2::c16(c, g);
+            ("E2: resize to every size 1..=L+2 x 1..=C+2 from every base state, BFS over resize sequences interleaved with residue-making edits, DECCOLM round trip; crop/extend reference; same size => full key unchanged", vec![A_BOUND, "declared don't-cares D1, D7"], true)
+        }
+        "C17" => {
+            props2::c17(c, g);
+            ("E2: every transition of the full alphabet (API + parser path, both mode spellings) from base states with a cleared dirty set, and BFS histories with clear_dirty as an op: rows whose cells changed must be in dirty, screen-wide changes mark all rows, no stale indices; model-free row diff", vec![A_BOUND], true)
+        }
+        "C18" => {
+            props2::c18(c, g);
+            ("E4: default stops for every width 1..=140 (new, reset, ESC c); every subset of stops on small widths x every cursor x {HT,HTS,TBC h}; edge sets on large widths; width changes (resize, DECCOLM) between setting and using a stop", vec![A_BOUND, "declared don't-care D7"], true)
+        }
+        "C19" => {
+            props3::c19(c, g);
+            ("E1 on a real Screen: every payload over the payload alphabet up to the length bound x codes x introducers x terminators, single feed + every 2-way chunking, chars and UTF-8 bytes; closed-form expectation on title/icon/grid/cursor", vec![A_BOUND, "declared don't-care D8"], true)
+        }
+        "C20" => {
+            props2::c20(c, g);
+            ("E4: all 4x256 table entries vs independently written tables (installed arrays and public constants), 256 code points x 4 tables x {G0,G1} x {SI,SO} drawn through the API, the 8-bit parser path byte by byte, UTF-8 mode ignoring shifts/designators", vec!["CP437 0x80..0xff generated from Python's cp437 codec at authoring time; VAX42 substitutions copied from the published table"], true)
+        }
+        _ => return None,
+    })
+}
+
 fn run(prop: &str, tier: &str) -> i32 {
     let c = Collector::new(prop, tier);
     let mut g = props::Guard::new();
-    let (rule, assumptions, exhaustive): (&str, Vec<&str>, bool) = match prop {
-        "C04" => {
-            props::c04(&c, &mut g);
-            (
-                "E2: every (reachable base state x draw text) transition of the real Screen, plus BFS over draw/motion/mode histories with full-key dedup; each transition refined against the reference model from alpha(pre). distinct_nontrivial = distinct post-state observable views",
-                vec!["unicode-width / unicode-normalization tables are trusted (shared with the subject)", "declared don't-cares D6, D11"],
-                true,
-            )
-        }
-        "C05" => {
-            props::c05(&c, &mut g);
-            (
-                "E2: every (reachable base state x movement op x parameter in {absent,0,1..size+2,9999}) transition, API and parser path; closed-form expectation on the cursor, frame condition on every other component. distinct_nontrivial = distinct post-state observable views",
-                vec!["bounded geometries; the finite per-geometry domain is enumerated completely"],
-                true,
-            )
-        }
-        "C06" => {
-            props::c06(&c, &mut g);
-            (
-                "E2: every (base state with distinct markers / sparse rows x every region x every cursor) x {IND,LF,VT,FF,NEL,RI,IL n,DL n,DECSTBM t;b, autowrap draw} transition plus BFS over scroll histories; refined against row-vector rotation model",
-                vec!["bounded geometries (lines <= 5)"],
-                true,
-            )
-        }
-        "C07" => {
-            props::c07(&c, &mut g);
-            (
-                "E2: every (base state x ED/EL selector in {absent,0..5,9999} / ECH count) transition, API and parser path; cells in range == blank+cursor rendition, all else identical",
-                vec!["bounded geometries"],
-                true,
-            )
-        }
-        "C13" => {
-            props::c13(&c, &mut g);
-            (
-                "E2: every (base state x ICH/DCH x count) transition plus BFS over ICH/DCH/IRM-draw/EL/resize/display interleavings on one row with full-key dedup; list-splice reference",
-                vec!["bounded geometries"],
-                true,
-            )
-        }
-        _ => {
+    let (rule, assumptions, exhaustive) = match run_body(prop, &c, &mut g) {
+        Some(x) => x,
+        None => {
             out!("unknown property {}", prop);
             return 2;
         }
     };
     let code = report::finish(&c, &verif_dir(), rule, &assumptions, exhaustive);
+    isolate::cleanup_tmp();
     for cr in c.crashes() {
         out!("MACHINERY: {}", cr);
     }
